@@ -103,3 +103,19 @@ check(
     "DESIGN.md section 3 C03",
     "gridlab",
 )
+
+ENGINES[-1]["serves_properties"].append("C02")
+check(
+    "C02",
+    "exploration",
+    "For generated grids the written metric is checked at centre, xlow and ylow: contravariant x covariant = identity, "
+    "J = hy/Bpxy and |J| sqrt(det) = 1, closed forms in R, Bp, hy, dphidy and a non-orthogonality angle measured by the "
+    "harness, and - independent of sign conventions - against scalar products of the actual displacements between "
+    "neighbouring grid points (g_11, g_12, poloidal part of g_22, sign of g12) and the finite difference of the stored "
+    "zShift (g_23 = g_33 dzShift/dy), for both signs of d(psi)/dr and both values of orthogonal.",
+    "Trusted base: harness reference field for grad(psi); finite-difference bands from two stencils plus integrand "
+    "variation (stated in evidence assumptions).",
+    "generated-grid PBT with closed-form and displacement (metamorphic/geometric) oracles",
+    "DESIGN.md section 3 C02",
+    "gridlab",
+)
